@@ -25,7 +25,12 @@ func stashScenario(script []string, bounds []int, viaSched bool) *vexp.Scenario 
 		Bounds: bounds,
 		Setup:  func(x *vexp.X) { vsys.CoarseSetup() },
 		Body: func(x *vexp.X) {
-			w := vsys.NewWorld(x)
+			// "R": the actor fails on that message and is restarted (the system strategy decides for a top-level actor);
+			// the stash belongs to the actor, not to the incarnation: it is still there afterwards, in order
+			w := vsys.NewWorld(x, vivid.WithActorSystemSupervisionStrategy(vivid.OneForOneStrategy(vivid.SupervisionStrategyDecisionMakerFN(
+				func(vivid.SupervisionContext) (vivid.SupervisionDecision, string) {
+					return vivid.SupervisionDecisionRestart, "scripted"
+				}))))
 			w.Quiet = true
 			w.Start()
 			seenOnce := map[string]bool{}
@@ -34,6 +39,8 @@ func stashScenario(script []string, bounds []int, viaSched bool) *vexp.Scenario 
 			t.OnMsg = func(a *vsys.Act, ctx vivid.ActorContext, m vsys.Msg) {
 				kind := m.ID[:1]
 				switch {
+				case kind == "R":
+					panic("scripted failure: restart")
 				case kind == "S" && !seenOnce[m.ID]:
 					seenOnce[m.ID] = true
 					ctx.Stash()
@@ -87,7 +94,7 @@ func stashScenario(script []string, bounds []int, viaSched bool) *vexp.Scenario 
 			for i, tok := range script {
 				id := tok
 				switch tok[:1] {
-				case "S", "P":
+				case "S", "P", "R":
 					id = fmt.Sprintf("%s%d", tok, i)
 				case "U":
 					if len(tok) > 1 {
@@ -103,6 +110,9 @@ func stashScenario(script []string, bounds []int, viaSched bool) *vexp.Scenario 
 				}
 				w.Sys.Tell(ref, vsys.Msg{ID: id})
 				vrt.Yield()
+				if tok[:1] == "R" {
+					vrt.QuiesceNoTimers() // the restart completes before the next token is sent
+				}
 			}
 			vrt.QuiesceNoTimers()
 			if len(redeliver) != 0 {
@@ -333,6 +343,11 @@ func build(tier string) []*vexp.Scenario {
 		maxLen = 6
 	}
 	var out []*vexp.Scenario
+	// a restart between stashing and un-stashing
+	for _, s := range [][]string{{"S", "R", "U", "P"}, {"S", "S", "R", "U2", "P"}, {"S", "P", "R", "S", "U99"}, {"S", "S", "R", "R", "U", "U"}, {"S", "U", "R", "S", "R", "U"}} {
+		out = append(out, stashScenario(s, bounds, false))
+		out = append(out, stashScenario(s, []int{0}, true))
+	}
 	alpha := []string{"S", "P", "U", "U-1", "U0", "U1", "U2", "U99"}
 	var rec func(s []string)
 	rec = func(s []string) {
